@@ -587,6 +587,43 @@ func runC16(c *Case) {
 				}
 			}
 		}
+		// ---- a call cancelled while the transport does not take the CANCEL; its final reply arrives meanwhile
+		if !wedged {
+			ctx, cancel := context.WithCancel(context.Background())
+			var bres *wamp.Result
+			var berr error
+			bret := false
+			go func() {
+				bres, berr = w.cli.Call(ctx, "blocked.proc", nil, wamp.List{"b"}, nil, nil)
+				bret = true
+			}()
+			synctest.Wait()
+			var breq wamp.ID
+			for _, m := range w.rtr.Take() {
+				if x, ok := m.Msg.(*wamp.Call); ok && x.Procedure == "blocked.proc" {
+					breq = x.Request
+				}
+			}
+			w.rtr.Pause()
+			synctest.Wait()
+			cancel()
+			synctest.Wait() // the client is now trying to hand its CANCEL to a transport that does not take it
+			tb := w.Now()
+			w.rtr.Send(&wamp.Result{Request: breq, Details: wamp.Dict{}, Arguments: wamp.List{"late-final"}})
+			synctest.Wait()
+			c.Hit("CL4")
+			if !bret || w.Now() != tb {
+				c.Fail("CL4", "call being cancelled does not end when its final reply arrives while the CANCEL is still unsent", "context cancelled while the transport was not taking messages; the call's final RESULT arrived: Call returned=%v (virtual %v later)", bret, w.Now()-tb)
+			}
+			w.rtr.Unpause()
+			time.Sleep(2 * tmo)
+			synctest.Wait()
+			if bret && !errors.Is(berr, context.Canceled) && !(berr == nil && bres != nil && tokenOf(bres.Arguments) == "late-final") {
+				c.Fail("CL4", "cancelled call returns neither the context's error nor its reply", "context cancelled while the transport was blocked, final reply delivered meanwhile: Call returned result=%v err=%v", bres, berr)
+			}
+			cancel()
+			w.rtr.Take()
+		}
 		// ---- invocations, interrupts, events for what is registered / subscribed
 		mu.Lock()
 		var regNames, subNames []string
@@ -610,6 +647,11 @@ func runC16(c *Case) {
 			// an invocation carrying the call's timeout (the callee registered with forward_timeout, or the dealer
 			// passes it on): the handler's context ends after 50 ms without any INTERRUPT
 			w.rtr.Send(&wamp.Invocation{Request: 6, Registration: reg, Details: wamp.Dict{"timeout": 50}, Arguments: wamp.List{"wait"}})
+			// INTERRUPT directly behind its INVOCATION (a caller that cancels at once): ids 7..11
+			for id := wamp.ID(7); id <= 11; id++ {
+				w.rtr.Send(&wamp.Invocation{Request: id, Registration: reg, Details: wamp.Dict{}, Arguments: wamp.List{"wait"}})
+				w.rtr.Send(&wamp.Interrupt{Request: id, Options: wamp.Dict{"mode": "killnowait"}})
+			}
 			synctest.Wait()
 			w.rtr.Send(&wamp.Interrupt{Request: 5, Options: wamp.Dict{"mode": "killnowait"}})
 			w.rtr.Send(&wamp.Interrupt{Request: 99, Options: wamp.Dict{}})
@@ -638,6 +680,18 @@ func runC16(c *Case) {
 			c.Hit("CL5")
 			if early6 || !handlerCtxDone[6] {
 				c.Fail("CL5", "handler context does not end at the invocation's timeout", "INVOCATION 6 carried timeout=50 (ms): handler context done 10 ms after the invocation: %v, after 70 ms: %v (expected false, true)", early6, handlerCtxDone[6])
+			}
+			for id := uint64(7); id <= 11; id++ {
+				// the handler may not have been started at all when the INTERRUPT came (then the invocation is
+				// answered with ERROR right away); if it was started, its context must have been cancelled
+				c.Hit("CL5")
+				if handlerRuns[id] > 1 || (handlerRuns[id] == 1 && !handlerCtxDone[id]) {
+					c.Fail("CL5", "INTERRUPT directly behind its INVOCATION is lost", "INVOCATION %d was followed at once by INTERRUPT %d: handler entered %d times, its context cancelled: %v", id, id, handlerRuns[id], handlerCtxDone[id])
+				}
+				c.Hit("CL6")
+				if answers[id] != 1 {
+					c.Fail("CL6", "not exactly one final answer per invocation", "INVOCATION %d followed at once by INTERRUPT: client sent %d final YIELD/ERROR messages", id, answers[id])
+				}
 			}
 			for id := uint64(1); id <= 6; id++ {
 				c.Hit("CL5")
